@@ -2,9 +2,13 @@
 // SyncCommitteeHandler of operator/duties (set up through their exported Setup, started through
 // HandleInitialDuties + HandleDuties) one event at a time.
 //
+// The ValidatorController is the REAL operator/validator controller (AllActiveIndices / CommitteeActiveIndices /
+// GetOperatorShares over a real shares store on an in-memory Badger and a real validators map, built by the verif
+// shim harness/inpkg/operator/validator); the harness scripts the registry (own / foreign shares, liquidated,
+// attesting / pending-queued / exited / slashed / unknown statuses, missing metadata) and changes it during a case.
 // Mocks of external systems only: slot ticker (a channel + a slot value), wall clock
-// (BeaconNetwork.EstimatedCurrentSlot/Epoch return a scripted slot), beacon node and validator controller
-// (scripted per-event fetch outcomes: no-active-indices / error / assignment), and — in `small` mode — the
+// (BeaconNetwork.EstimatedCurrentSlot/Epoch return a scripted slot), beacon node (scripted per-event answers: error, or
+// the duties the chain assigns to anybody — of which it returns those of the REQUESTED indices), and — in `small` mode — the
 // network parameters slots-per-epoch / epochs-per-period (in `real` mode all slot/epoch/period arithmetic is
 // the real beacon.Network with 32 / 256).  The executeDuties callback records synchronously.
 //
@@ -50,8 +54,10 @@ import (
 	"github.com/bloxapp/ssv/operator/duties"
 	"github.com/bloxapp/ssv/operator/duties/dutystore"
 	"github.com/bloxapp/ssv/operator/slotticker"
+	vctrl "github.com/bloxapp/ssv/operator/validator"
 	"github.com/bloxapp/ssv/protocol/v2/blockchain/beacon"
 	"github.com/bloxapp/ssv/protocol/v2/types"
+	"github.com/bloxapp/ssv/zz_verif/lib/hx"
 )
 
 // ------------------------------------------------------------------------------------------------
@@ -59,26 +65,15 @@ import (
 
 type duty struct{ slot, vidx, tag uint64 }
 
+// fres: what the beacon node would answer to a duty request: an error, or the duties the chain assigns (to anybody)
 type fres struct {
-	kind      byte // 'n' no active indices, 'f' beacon error, 'o' ok
-	committee []uint64
-	duties    []duty
+	kind   byte // 'f' beacon error, 'o' ok
+	duties []duty
 }
 
 func (f fres) String() string {
-	switch f.kind {
-	case 'n':
-		return "n"
-	case 'f':
+	if f.kind == 'f' {
 		return "f"
-	}
-	c := "-"
-	if len(f.committee) > 0 {
-		p := make([]string, len(f.committee))
-		for i, v := range f.committee {
-			p[i] = strconv.FormatUint(v, 10)
-		}
-		c = strings.Join(p, ".")
 	}
 	d := "-"
 	if len(f.duties) > 0 {
@@ -88,32 +83,20 @@ func (f fres) String() string {
 		}
 		d = strings.Join(p, ";")
 	}
-	return "ok:" + c + ":" + d
+	return "ok:" + d
 }
 
 func parseRes(s string) (fres, error) {
-	if s == "n" {
-		return fres{kind: 'n'}, nil
-	}
 	if s == "f" {
 		return fres{kind: 'f'}, nil
 	}
 	p := strings.Split(s, ":")
-	if len(p) != 3 || p[0] != "ok" {
-		return fres{}, errors.New("bad res " + s)
+	if len(p) != 2 || p[0] != "ok" {
+		return fres{}, errors.New("bad chain answer " + s)
 	}
 	r := fres{kind: 'o'}
 	if p[1] != "-" {
-		for _, w := range strings.Split(p[1], ".") {
-			v, err := strconv.ParseUint(w, 10, 64)
-			if err != nil {
-				return r, err
-			}
-			r.committee = append(r.committee, v)
-		}
-	}
-	if p[2] != "-" {
-		for _, w := range strings.Split(p[2], ";") {
+		for _, w := range strings.Split(p[1], ";") {
 			q := strings.Split(w, "/")
 			if len(q) != 3 {
 				return r, errors.New("bad duty " + w)
@@ -133,6 +116,101 @@ func parseRes(s string) (fres, error) {
 		}
 	}
 	return r, nil
+}
+
+// share: one scripted registry entry. status: a attesting (ActiveOngoing), x attesting (ActiveExiting), q pending queued
+// (activation epoch act), e exited, s slashed, u pending-initialized, n no beacon metadata.
+type share struct {
+	vidx     uint64
+	own, liq bool
+	status   byte
+	act      uint64
+}
+
+// canonical status letter of the op line: a | q<act> | o | n
+func (x share) String() string {
+	st := "o"
+	switch x.status {
+	case 'a', 'x':
+		st = "a"
+	case 'q':
+		st = "q" + strconv.FormatUint(x.act, 10)
+	case 'n':
+		st = "n"
+	}
+	return fmt.Sprintf("%d/%d%d/%s", x.vidx, b2i(x.own), b2i(x.liq), st)
+}
+
+func sharesString(l []share) string {
+	if len(l) == 0 {
+		return "-"
+	}
+	p := make([]string, len(l))
+	for i, x := range l {
+		p[i] = x.String()
+	}
+	return strings.Join(p, ";")
+}
+
+func parseShares(s string) ([]share, error) {
+	if s == "-" || s == "" {
+		return nil, nil
+	}
+	var out []share
+	for _, w := range strings.Split(s, ";") {
+		q := strings.Split(w, "/")
+		if len(q) != 3 || len(q[1]) != 2 || len(q[2]) == 0 {
+			return nil, errors.New("bad share " + w)
+		}
+		v, err := strconv.ParseUint(q[0], 10, 64)
+		if err != nil {
+			return nil, err
+		}
+		x := share{vidx: v, own: q[1][0] == '1', liq: q[1][1] == '1', status: q[2][0]}
+		if x.status == 'q' {
+			if x.act, err = strconv.ParseUint(q[2][1:], 10, 64); err != nil {
+				return nil, err
+			}
+		}
+		out = append(out, x)
+	}
+	return out, nil
+}
+
+// attesting: the oracle's own reading of "active validator" at an epoch (SSVShare.IsAttesting as specified)
+func (x share) attesting(epoch uint64) bool {
+	switch x.status {
+	case 'a', 'x':
+		return true
+	case 'q':
+		return x.act <= epoch
+	}
+	return false
+}
+
+func toVerifShares(l []share, _ *hx.Rng) []vctrl.VerifShare {
+	out := make([]vctrl.VerifShare, 0, len(l))
+	for _, x := range l {
+		v := vctrl.VerifShare{Index: x.vidx, Own: x.own, Liquidated: x.liq, HasMeta: x.status != 'n', Activation: x.act}
+		switch x.status {
+		case 'a':
+			v.Status = eth2apiv1.ValidatorStateActiveOngoing
+		case 'x':
+			v.Status = eth2apiv1.ValidatorStateActiveExiting
+		case 'q':
+			v.Status = eth2apiv1.ValidatorStatePendingQueued
+		case 'e':
+			v.Status = eth2apiv1.ValidatorStateExitedUnslashed
+		case 's':
+			v.Status = eth2apiv1.ValidatorStateActiveSlashed
+		case 'u':
+			v.Status = eth2apiv1.ValidatorStatePendingInitialized
+		case 'o': // replayed canonical "other": any non-attesting status
+			v.Status = eth2apiv1.ValidatorStateExitedUnslashed
+		}
+		out = append(out, v)
+	}
+	return out
 }
 
 func pubKeyOf(tag uint64) (pk phase0.BLSPubKey) {
@@ -228,8 +306,9 @@ type xduty struct {
 type atom struct {
 	fetch bool
 	arg   uint64
-	tag   string // ok | fail | noidx | unscripted
-	res   fres
+	tag   string   // ok | fail | noidx | unscripted
+	res   fres     // the scripted chain answer that was consumed
+	own   []uint64 // ok: this operator's active validators at epoch `arg`, by the harness's registry (oracle ground truth)
 	exec  []xduty
 }
 
@@ -247,129 +326,114 @@ type world struct {
 	queue    []fres
 	atoms    []atom
 	protoErr string
+	vc       *vctrl.VerifIndexController // the real validator controller (index functions)
+	shares   []share                     // the scripted registry (what the real store was filled with)
 }
 
-func (w *world) begin(epoch phase0.Epoch) (fres, bool) {
+// noIndices: the real index function returned nothing for `epoch`: the fetch ends here (it still consumes the scripted
+// answer of its position, like the model)
+func (w *world) noIndices(epoch phase0.Epoch) {
 	w.mu.Lock()
 	defer w.mu.Unlock()
-	if len(w.queue) == 0 {
-		w.atoms = append(w.atoms, atom{fetch: true, arg: uint64(epoch), tag: "unscripted"})
-		return fres{}, false
-	}
-	h := w.queue[0]
-	if h.kind == 'n' {
+	a := atom{fetch: true, arg: uint64(epoch), tag: "noidx"}
+	if len(w.queue) > 0 {
+		a.res = w.queue[0]
 		w.queue = w.queue[1:]
-		w.atoms = append(w.atoms, atom{fetch: true, arg: uint64(epoch), tag: "noidx", res: h})
-		return h, false
+	} else {
+		a.tag = "unscripted"
 	}
-	return h, true
+	w.atoms = append(w.atoms, a)
 }
 
-func (w *world) head() fres {
+// ownActive: this operator's active validators at `epoch` according to the scripted registry (oracle ground truth:
+// own share, not liquidated, attesting at the epoch)
+func (w *world) ownActive(epoch uint64) []uint64 {
+	var out []uint64
+	for _, x := range w.shares {
+		if x.own && !x.liq && x.attesting(epoch) {
+			out = append(out, x.vidx)
+		}
+	}
+	return out
+}
+
+// answer: the beacon node is asked for the duties of `indices` at `epoch`
+func (w *world) answer(epoch phase0.Epoch, indices []phase0.ValidatorIndex) ([]duty, error) {
 	w.mu.Lock()
 	defer w.mu.Unlock()
 	if len(w.queue) == 0 {
-		return fres{}
-	}
-	return w.queue[0]
-}
-
-func (w *world) finish(epoch phase0.Epoch) (fres, error) {
-	w.mu.Lock()
-	defer w.mu.Unlock()
-	if len(w.queue) == 0 {
-		w.protoErr = "beacon call without scripted result"
-		return fres{}, errors.New("unscripted")
+		w.protoErr = "beacon call without scripted answer"
+		return nil, errors.New("unscripted")
 	}
 	h := w.queue[0]
 	w.queue = w.queue[1:]
 	if h.kind == 'f' {
 		w.atoms = append(w.atoms, atom{fetch: true, arg: uint64(epoch), tag: "fail", res: h})
-		return h, errors.New("scripted beacon failure")
+		return nil, errors.New("scripted beacon failure")
 	}
-	w.atoms = append(w.atoms, atom{fetch: true, arg: uint64(epoch), tag: "ok", res: h})
-	return h, nil
-}
-
-func indicesOf(h fres, needCommittee bool) []phase0.ValidatorIndex {
-	seen := map[uint64]bool{}
-	var out []phase0.ValidatorIndex
-	for _, v := range h.committee {
-		if !seen[v] {
-			seen[v] = true
-			out = append(out, phase0.ValidatorIndex(v))
+	w.atoms = append(w.atoms, atom{fetch: true, arg: uint64(epoch), tag: "ok", res: h, own: w.ownActive(uint64(epoch))})
+	asked := map[uint64]bool{}
+	for _, i := range indices {
+		asked[uint64(i)] = true
+	}
+	var out []duty
+	for _, d := range h.duties {
+		if asked[d.vidx] { // a beacon node answers for the requested validators only
+			out = append(out, d)
 		}
 	}
-	if !needCommittee {
-		for _, d := range h.duties {
-			if !seen[d.vidx] {
-				seen[d.vidx] = true
-				out = append(out, phase0.ValidatorIndex(d.vidx))
-			}
-		}
-	}
-	if len(out) == 0 {
-		out = append(out, phase0.ValidatorIndex(999999))
-	}
-	return out
+	return out, nil
 }
 
-// --- ValidatorController
+// --- ValidatorController: the REAL controller; this wrapper only notices an empty answer of the function that opens a
+// fetch (attester: CommitteeActiveIndices; proposer, sync committee: AllActiveIndices)
 func (w *world) CommitteeActiveIndices(epoch phase0.Epoch) []phase0.ValidatorIndex {
-	if w.kind == "att" { // first call of an attester fetch
-		h, ok := w.begin(epoch)
-		if !ok {
-			return nil
-		}
-		return indicesOf(h, false)
-	}
-	h := w.head()
-	out := make([]phase0.ValidatorIndex, 0, len(h.committee))
-	for _, v := range h.committee {
-		out = append(out, phase0.ValidatorIndex(v))
+	out := w.vc.Controller().CommitteeActiveIndices(epoch)
+	if w.kind == "att" && len(out) == 0 {
+		w.noIndices(epoch)
 	}
 	return out
 }
 func (w *world) AllActiveIndices(epoch phase0.Epoch, afterInit bool) []phase0.ValidatorIndex {
-	h, ok := w.begin(epoch) // first call of a proposer / sync-committee fetch
-	if !ok {
-		return nil
+	out := w.vc.Controller().AllActiveIndices(epoch, afterInit)
+	if len(out) == 0 {
+		w.noIndices(epoch)
 	}
-	return indicesOf(h, false)
+	return out
 }
-func (w *world) GetOperatorShares() []*types.SSVShare { return nil }
+func (w *world) GetOperatorShares() []*types.SSVShare { return w.vc.Controller().GetOperatorShares() }
 
 // --- BeaconNode
-func (w *world) AttesterDuties(ctx context.Context, epoch phase0.Epoch, _ []phase0.ValidatorIndex) ([]*eth2apiv1.AttesterDuty, error) {
-	h, err := w.finish(epoch)
+func (w *world) AttesterDuties(ctx context.Context, epoch phase0.Epoch, indices []phase0.ValidatorIndex) ([]*eth2apiv1.AttesterDuty, error) {
+	ds, err := w.answer(epoch, indices)
 	if err != nil {
 		return nil, err
 	}
-	out := make([]*eth2apiv1.AttesterDuty, 0, len(h.duties))
-	for _, d := range h.duties {
+	out := make([]*eth2apiv1.AttesterDuty, 0, len(ds))
+	for _, d := range ds {
 		out = append(out, &eth2apiv1.AttesterDuty{PubKey: pubKeyOf(d.tag), Slot: phase0.Slot(d.slot), ValidatorIndex: phase0.ValidatorIndex(d.vidx),
 			CommitteeIndex: phase0.CommitteeIndex(d.tag % 64), CommitteeLength: 128, CommitteesAtSlot: 64, ValidatorCommitteeIndex: d.vidx})
 	}
 	return out, nil
 }
-func (w *world) ProposerDuties(ctx context.Context, epoch phase0.Epoch, _ []phase0.ValidatorIndex) ([]*eth2apiv1.ProposerDuty, error) {
-	h, err := w.finish(epoch)
+func (w *world) ProposerDuties(ctx context.Context, epoch phase0.Epoch, indices []phase0.ValidatorIndex) ([]*eth2apiv1.ProposerDuty, error) {
+	ds, err := w.answer(epoch, indices)
 	if err != nil {
 		return nil, err
 	}
-	out := make([]*eth2apiv1.ProposerDuty, 0, len(h.duties))
-	for _, d := range h.duties {
+	out := make([]*eth2apiv1.ProposerDuty, 0, len(ds))
+	for _, d := range ds {
 		out = append(out, &eth2apiv1.ProposerDuty{PubKey: pubKeyOf(d.tag), Slot: phase0.Slot(d.slot), ValidatorIndex: phase0.ValidatorIndex(d.vidx)})
 	}
 	return out, nil
 }
-func (w *world) SyncCommitteeDuties(ctx context.Context, epoch phase0.Epoch, _ []phase0.ValidatorIndex) ([]*eth2apiv1.SyncCommitteeDuty, error) {
-	h, err := w.finish(epoch)
+func (w *world) SyncCommitteeDuties(ctx context.Context, epoch phase0.Epoch, indices []phase0.ValidatorIndex) ([]*eth2apiv1.SyncCommitteeDuty, error) {
+	ds, err := w.answer(epoch, indices)
 	if err != nil {
 		return nil, err
 	}
-	out := make([]*eth2apiv1.SyncCommitteeDuty, 0, len(h.duties))
-	for _, d := range h.duties {
+	out := make([]*eth2apiv1.SyncCommitteeDuty, 0, len(ds))
+	for _, d := range ds {
 		out = append(out, &eth2apiv1.SyncCommitteeDuty{PubKey: pubKeyOf(d.tag), ValidatorIndex: phase0.ValidatorIndex(d.vidx),
 			ValidatorSyncCommitteeIndices: []phase0.CommitteeIndex{phase0.CommitteeIndex(d.vidx % 512)}})
 	}
@@ -418,10 +482,36 @@ func (w *world) barrier() bool {
 	}
 }
 
-func newWorld(kind string, real bool, spe, epp, clock uint64, f1 fres) (*world, []atom) {
+func (w *world) setShares(l []share) {
+	w.mu.Lock()
+	w.shares = l
+	w.mu.Unlock()
+	if err := w.vc.SetShares(toVerifShares(l, nil)); err != nil {
+		w.protoErr = "registry: " + err.Error()
+	}
+}
+
+// one real controller (one in-memory Badger) per process; every case replaces the registry content (cases run one
+// after the other)
+var theController *vctrl.VerifIndexController
+
+func sharedController() *vctrl.VerifIndexController {
+	if theController == nil {
+		vc, err := vctrl.VerifNewIndexController(7)
+		if err != nil {
+			panic(err)
+		}
+		theController = vc
+	}
+	return theController
+}
+
+func newWorld(kind string, real bool, spe, epp, clock uint64, shares []share, f1 fres) (*world, []atom) {
 	w := &world{kind: kind, tk: &fakeTicker{ch: make(chan time.Time)}, reorgCh: make(chan duties.ReorgEvent), idxCh: make(chan struct{}), done: make(chan struct{})}
 	w.net = &fakeNet{Network: networkconfig.TestNetwork.Beacon.GetNetwork(), real: real, spe: spe, epp: epp, clock: &w.clock}
 	w.clock.Store(clock)
+	w.vc = sharedController()
+	w.setShares(shares)
 	nc := networkconfig.NetworkConfig{Name: "verif", Beacon: w.net}
 	var h handler
 	name := ""
@@ -482,6 +572,7 @@ type op struct {
 	slot, clock uint64
 	prev, cur   bool
 	f1, f2      fres
+	shares      []share
 }
 
 func b2i(b bool) int {
@@ -498,7 +589,9 @@ func (o op) String() string {
 		if o.real {
 			net = "real"
 		}
-		return fmt.Sprintf("reset kind=%s net=%s spe=%d epp=%d clock=%d f1=%s", o.kind, net, o.spe, o.epp, o.clock, o.f1)
+		return fmt.Sprintf("reset kind=%s net=%s spe=%d epp=%d clock=%d shares=%s f1=%s", o.kind, net, o.spe, o.epp, o.clock, sharesString(o.shares), o.f1)
+	case "shares":
+		return "shares set=" + sharesString(o.shares)
 	case "tick":
 		return fmt.Sprintf("tick slot=%d clock=%d f1=%s f2=%s", o.slot, o.clock, o.f1, o.f2)
 	case "reorg":
@@ -525,7 +618,11 @@ func parseOp(line string) (op, error) {
 	switch o.name {
 	case "reset":
 		o.kind, o.real, o.spe, o.epp, o.clock = kv["kind"], kv["net"] == "real", u("spe"), u("epp"), u("clock")
-		o.f1, err = parseRes(kv["f1"])
+		if o.f1, err = parseRes(kv["f1"]); err == nil {
+			o.shares, err = parseShares(kv["shares"])
+		}
+	case "shares":
+		o.shares, err = parseShares(kv["set"])
 	case "tick":
 		o.slot, o.clock = u("slot"), u("clock")
 		if o.f1, err = parseRes(kv["f1"]); err == nil {
